@@ -5,6 +5,7 @@ from sim import oracles, tape
 from sim.oracles import Violation
 
 from . import common
+from . import sampling as _sampling
 
 PROPERTY = "C05"
 LEVEL = "exploration"
@@ -112,6 +113,23 @@ def generate(seed, tier="quick"):
         _sampling.add_arg_types(rnd, op, p=0.3)
         ops.append(op)
         oid += 1
+    # clause (b) for the ITERATIVE sampler: equal seeds and equal windows => the same accepted rows whatever the
+    # cache path (object / file), the pool and its transports, and the batching of the posterior stage
+    if rnd.random() < 0.5:
+        rs3 = rnd.getrandbits(32)
+        kwi = {"n_requested_samples": rnd.choice([1, 2, 3, 5, 8, rnd.randint(1, max(1, N))]), "init_batch_size": rnd.randint(1, max(1, N)), "n_linear_samples": rnd.choice([1, 1, 2])}
+        if rnd.random() < 0.4:
+            kwi["randomize_prior_order"] = True
+        if rnd.random() < 0.3:
+            kwi["max_prior_samples"] = rnd.randint(kwi["init_batch_size"], max(kwi["init_batch_size"], N))
+        if rnd.random() < 0.3:
+            kwi["growth_factor"] = rnd.choice([2, 8, 128])
+        for _ in range(rnd.randint(2, 3)):
+            k2 = dict(kwi)
+            k2["n_batches"] = rnd.choice([None, 1, 2, 3, rnd.randint(1, 8)])
+            ops.append({"id": oid, "op": "iterative", "data": 0, "lib": 0, "role": "accept-iter", "rng_seed": rs3, "kw": k2, "joker": "fresh", "in_memory": False,
+                        "source": rnd.choice(["object", "file"]), "pool": rnd.choice([{"kind": "serial"}, {"kind": "sim", "size": rnd.randint(1, 6)}, {"kind": "sim", "size": rnd.randint(2, 6)}])})
+            oid += 1
     # clause (b) over HISTORIES: several file-path samplers with equal seeds make the same sequence of calls but
     # with different batching / pool / cache-vs-file; the accepted set must agree at every step (in-memory is left
     # out: it consumes the parent stream for the linear draws, so later calls legitimately differ from the file path)
@@ -149,7 +167,9 @@ def generate(seed, tier="quick"):
         else:
             ops.append({"id": oid, "op": "helper_roundtrip", "h": "h0", "kind": "dill" if rnd.random() < 0.1 else "reduce", "role": "helper"})
         oid += 1
-    return {"format": 1, "property": PROPERTY, "seed": seed, "config": cfg, "ops": ops, "schedule": None, "faults": []}
+    prog = {"format": 1, "property": PROPERTY, "seed": seed, "config": cfg, "ops": ops, "schedule": None, "faults": []}
+    _sampling.add_concurrent(rnd, prog, p=0.15)
+    return prog
 
 
 def map_rows(packed, cols):
@@ -272,6 +292,28 @@ def evaluate(dep, program):
                     "rows %s (op %s) vs %s (op %s)" % (rows[:20], op, acc_ref[0][:20], acc_ref[1]),
                 )
             )
+    # clause (b), iterative sampler
+    it_ref = None
+    for rec in dep.history:
+        op = rec["op"]
+        if op.get("role") != "accept-iter":
+            continue
+        if rec["raised"] is not None:
+            got = ("raised", rec["raised"][-1][0])
+        elif rec["out"]["type"] != "JokerSamples":
+            v.append(Violation(PROPERTY, "C05.type", "C05:iterative:%s:wrong-type" % _pname(op), rec["out"]["type"]))
+            continue
+        else:
+            nl = op["kw"].get("n_linear_samples", 1)
+            got = ("rows", map_rows(packed, {k: rec["out"]["cols"][k]["v"] for k in ["P", "e", "omega", "M0", "s"]})[::nl])
+        probe("iterative_accept_paths")
+        for m in rec["maps"]:
+            probe("iterative_transport:" + m["decision"]["transport"])
+        if it_ref is None:
+            it_ref = (got, op)
+        elif got != it_ref[0]:
+            v.append(Violation(PROPERTY, "C05.accepted-set", "C05:iterative:accepted-set-differs-across-pools-or-paths",
+                               "%s (%s) vs %s (%s)" % (str(got)[:160], {k: op[k] for k in ("source", "pool", "kw")}, str(it_ref[0])[:160], {k: it_ref[1][k] for k in ("source", "pool", "kw")})))
     # clause (b) over histories
     step_ref = {}
     for rec in dep.history:
@@ -345,6 +387,7 @@ def evaluate(dep, program):
         bad = lib.modified_in_place()
         if bad:
             v.append(Violation("C05", "C05.input-modified", "C05:library-object-modified-in-place-by-a-call", "library %d: column(s) %s of the user's JokerSamples object no longer hold what was put there; later calls see another library" % (li, bad)))
+    v += _sampling.check_concurrent(dep, "C05", probes)
     return v, probes
 
 
